@@ -8,7 +8,7 @@ package impl
 //
 //	message One {                       // proto2
 //	  optional int32 a = 1;
-//	  oneof o { int32 x = 2; string s = 3; Child m = 4; bytes y = 5; }
+//	  oneof o { int32 x = 2; string s = 3; Child m = 4; bytes y = 5; sint32 z = 7; }   // x and z share a Go type
 //	}
 //	message One3 { oneof o { int32 x = 2; string s = 3; Req r = 4; } }   // proto3 file: s is UTF-8 checked;
 //	                                                                      // r has a required field
@@ -37,11 +37,13 @@ type VOne_X struct{ X int32 }
 type VOne_S struct{ S string }
 type VOne_M struct{ M *VChild }
 type VOne_Y struct{ Y []byte }
+type VOne_Z struct{ Z int32 }
 
 func (*VOne_X) isVOne_O() {}
 func (*VOne_S) isVOne_O() {}
 func (*VOne_M) isVOne_O() {}
 func (*VOne_Y) isVOne_O() {}
+func (*VOne_Z) isVOne_O() {}
 
 var vmiOne *MessageInfo
 
@@ -65,9 +67,10 @@ func vMI_One() *MessageInfo {
 	fs := vfd("s", 3, protoreflect.StringKind, opt, false, true, nil)
 	fm := vfd("m", 4, protoreflect.MessageKind, opt, false, true, vmdChild)
 	fy := vfd("y", 5, protoreflect.BytesKind, opt, false, true, nil)
+	fz := vfd("z", 7, protoreflect.Sint32Kind, opt, false, true, nil)
 	md := vmd("v.One", protoreflect.Proto2,
-		vfd("a", 1, protoreflect.Int32Kind, opt, false, true, nil), fx, fs, fm, fy)
-	voneof(md, "o", fx, fs, fm, fy)
+		vfd("a", 1, protoreflect.Int32Kind, opt, false, true, nil), fx, fs, fm, fy, fz)
+	voneof(md, "o", fx, fs, fm, fy, fz)
 	var x VOne
 	si := vsi()
 	si.sizecacheOffset, si.sizecacheType = offsetOfU(unsafe.Offsetof(x.sizeCache)), reflect.TypeOf(x.sizeCache)
@@ -78,6 +81,7 @@ func vMI_One() *MessageInfo {
 	si.oneofWrappersByNumber[3] = reflect.TypeOf(&VOne_S{}).Elem()
 	si.oneofWrappersByNumber[4] = reflect.TypeOf(&VOne_M{}).Elem()
 	si.oneofWrappersByNumber[5] = reflect.TypeOf(&VOne_Y{}).Elem()
+	si.oneofWrappersByNumber[7] = reflect.TypeOf(&VOne_Z{}).Elem()
 	vfinish(vmiOne, md, reflect.TypeOf(&x), si)
 	return vmiOne
 }
@@ -126,14 +130,17 @@ func vMI_One3() *MessageInfo {
 }
 
 // mOneRecord builds one record of v.One: which selects the field (0: a, 1: x, 2: s, 3: m, 4: y,
-// 5: an unknown varint field 6); the payload is symbolic with an exact shape.
+// 5: an unknown varint field 6, 6: z); the payload is symbolic with an exact shape.
 // It returns the record and the scalar value / payload it carries.
 func mOneRecord(which int) (rec []byte, iv int32, pay []byte) {
 	switch which {
-	case 0, 1, 5:
-		num := []protowire.Number{1, 2, 0, 0, 0, 6}[which]
+	case 0, 1, 5, 6:
+		num := []protowire.Number{1, 2, 0, 0, 0, 6, 7}[which]
 		v := nd.Byte()
 		nd.Assume(v < 0x80)
+		if which == 6 {
+			return []byte{byte(num<<3) | 0, v}, int32(protowire.DecodeZigZag(uint64(v))), nil
+		}
 		return []byte{byte(num<<3) | 0, v}, int32(v), nil
 	case 2, 4:
 		num := protowire.Number(3)
@@ -181,13 +188,16 @@ func mOneWhich(x *VOne) int {
 	case *VOne_Y:
 		nd.Assert(w != nil, "wrapper pointer is non-nil")
 		return 5
+	case *VOne_Z:
+		nd.Assert(w != nil, "wrapper pointer is non-nil")
+		return 7
 	}
 	return -1
 }
 
-//verif:props=C12,C03 bounds=v.One;two-records-each-one-of{a,x,s(<=2),m(3-shapes),y(<=2),unknown};exact-shape-payloads maxsteps=8000000
+//verif:props=C12,C03 bounds=v.One;two-records-each-one-of{a,x,s(<=2),m(3-shapes),y(<=2),z,unknown};exact-shape-payloads maxsteps=8000000
 func H_M8_oneof_lastwins() {
-	w1, w2 := nd.Int(0, 5), nd.Int(0, 5)
+	w1, w2 := nd.Int(0, 6), nd.Int(0, 6)
 	r1, _, _ := mOneRecord(w1)
 	r2, v2, p2 := mOneRecord(w2)
 	b := append(append([]byte{}, r1...), r2...)
@@ -205,6 +215,9 @@ func H_M8_oneof_lastwins() {
 		if w >= 1 && w <= 4 {
 			return w + 1
 		}
+		if w == 6 {
+			return 7
+		}
 		return 0
 	}
 	want := member(w2)
@@ -217,6 +230,8 @@ func H_M8_oneof_lastwins() {
 		switch w := x.O.(type) {
 		case *VOne_X:
 			nd.Assert(w.X == v2, "int32 member carries the last value")
+		case *VOne_Z:
+			nd.Assert(w.Z == v2, "sint32 member carries the last value")
 		case *VOne_S:
 			nd.Assert(mEq([]byte(w.S), p2), "string member carries the last value")
 		case *VOne_Y:
@@ -241,7 +256,7 @@ func H_M8_oneof_lastwins() {
 			nd.Assert(false, "marshal output is well formed")
 			return
 		}
-		if num >= 2 && num <= 5 {
+		if (num >= 2 && num <= 5) || num == 7 {
 			cnt++
 		}
 		rest = rest[n:]
@@ -280,7 +295,7 @@ func H_M8_oneof_member_merge() {
 
 //verif:props=C03,C04,C09,C12 bounds=v.One;one-or-two-records;exact-shape-payloads maxsteps=8000000 timeout=60000
 func H_M8_oneof_roundtrip() {
-	w1, w2 := nd.Int(0, 5), nd.Int(0, 5)
+	w1, w2 := nd.Int(0, 6), nd.Int(0, 6)
 	r1, _, _ := mOneRecord(w1)
 	b := append([]byte{}, r1...)
 	if nd.Bool() {
@@ -293,7 +308,7 @@ func H_M8_oneof_roundtrip() {
 //verif:props=C07,C12 bounds=v.One;src-and-dst-one-record-each;exact-shape-payloads maxsteps=8000000
 func H_M8_oneof_merge() {
 	// Merge(dst, src) == Unmarshal(Marshal(dst) ++ Marshal(src))
-	w1, w2 := nd.Int(0, 5), nd.Int(0, 5)
+	w1, w2 := nd.Int(0, 6), nd.Int(0, 6)
 	r1, _, _ := mOneRecord(w1)
 	r2, _, _ := mOneRecord(w2)
 	mi := vMI_One()
